@@ -3,12 +3,15 @@
 package streams
 
 import (
+	"bytes"
+	"encoding/json"
 	"fmt"
 	"sort"
 
 	corev1 "k8s.io/api/core/v1"
 	"k8s.io/pod-security-admission/api"
 	"k8s.io/pod-security-admission/policy"
+	"k8s.io/pod-security-admission/test"
 	"psaverif/internal/cq"
 	"psaverif/internal/enc"
 	"psaverif/internal/gen"
@@ -86,6 +89,28 @@ func C20(seed int64, n int) (*cq.Set, *cq.Interner) {
 	in := cq.NewInterner()
 	set := &cq.Set{Stream: "c20", Seed: seed, Imports: "Model.Api Model.Pod Model.Checks Corr.C20", CaseTy: "c20_case", RunFn: "run_c20",
 		Rule: "every file under test/testdata (exhaustive), decoded strictly, API-server volume defaulting applied, evaluated by the real evaluator at the fixture's level and version and by each control in force there; distinct by (level, version, file); non-trivial = fail fixtures and pass fixtures other than base pods"}
+	// the in-memory generators must describe the same pods whatever a caller did with earlier results:
+	// fetch everything, scribble on the pods the three exported getters hand out, fetch again
+	if before, err := gen.LoadGenerated(); err == nil {
+		snap, _ := json.Marshal(before)
+		for _, lvl := range []api.Level{api.LevelBaseline, api.LevelRestricted} {
+			for minor := 0; minor <= 40; minor++ {
+				for _, get := range []func(api.Level, api.Version) (*corev1.Pod, error){test.GetMinimalValidPod, test.GetMinimalValidLinuxPod, test.GetMinimalValidWindowsPod} {
+					if p, err := get(lvl, api.MajorMinorVersion(1, minor)); err == nil && p != nil {
+						p.Name = "scribbled"
+						p.Spec.HostNetwork = true
+						p.Spec.Containers = nil
+						p.Spec.SecurityContext = nil
+					}
+				}
+			}
+		}
+		if after, err := gen.LoadGenerated(); err == nil {
+			if snap2, _ := json.Marshal(after); !bytes.Equal(snap, snap2) {
+				set.GoFails = append(set.GoFails, cq.GoFail{What: "the fixture generators hand out shared pods: after a caller modified the pods returned by GetMinimalValid*Pod the generated fixtures changed", Replay: map[string]interface{}{"fixtures_before": len(before), "fixtures_after": len(after)}})
+			}
+		}
+	}
 	fs, err := gen.LoadSerialized("/repo/test/testdata")
 	if err != nil {
 		set.GoFails = append(set.GoFails, cq.GoFail{What: "cannot load fixtures: " + err.Error(), Replay: map[string]interface{}{}})
